@@ -23,7 +23,7 @@ type Access struct {
 func (p *Prog) fieldAccesses(st, field string) []Access {
 	var out []Access
 	for _, fn := range p.Fns {
-		eachInstr(fn, func(in ssa.Instruction) {
+		eachInstrLocal(fn, func(in ssa.Instruction) {
 			switch x := in.(type) {
 			case *ssa.FieldAddr:
 				fr, base, ok := fieldOfAddr(x)
@@ -253,7 +253,7 @@ func (p *Prog) localCell(addr ssa.Value) *ssa.Alloc {
 			}
 		}
 		var res *ssa.Alloc
-		eachInstr(par, func(in ssa.Instruction) {
+		eachInstrLocal(par, func(in ssa.Instruction) {
 			if mc, ok := in.(*ssa.MakeClosure); ok && mc.Fn == fn && idx >= 0 && idx < len(mc.Bindings) {
 				if a := p.localCell(mc.Bindings[idx]); a != nil {
 					res = a
@@ -271,7 +271,7 @@ func (p *Prog) storesToCell(cell *ssa.Alloc) []ssa.Value {
 	var out []ssa.Value
 	top := topParent(cell.Parent())
 	for _, fn := range withClosures(top) {
-		eachInstr(fn, func(in ssa.Instruction) {
+		eachInstrLocal(fn, func(in ssa.Instruction) {
 			if s, ok := in.(*ssa.Store); ok {
 				if s.Addr == ssa.Value(cell) || (isFreeVarOf(s.Addr, cell, p)) {
 					out = append(out, s.Val)
@@ -309,7 +309,7 @@ func (p *Prog) boundValue(v ssa.Value) ssa.Value {
 		}
 	}
 	var res ssa.Value = v
-	eachInstr(par, func(in ssa.Instruction) {
+	eachInstrLocal(par, func(in ssa.Instruction) {
 		if mc, ok := in.(*ssa.MakeClosure); ok && mc.Fn == fn && idx >= 0 {
 			res = mc.Bindings[idx]
 		}
@@ -333,6 +333,7 @@ func (p *Prog) originsSubset(a, b ssa.Value) bool {
 
 // isGlobalLoad reports whether v is a load of the package-level variable name.
 func isGlobalLoad(v ssa.Value, name string) bool {
+	v = seeThrough(v)
 	u, ok := v.(*ssa.UnOp)
 	if !ok || u.Op != token.MUL {
 		return false
@@ -343,6 +344,7 @@ func isGlobalLoad(v ssa.Value, name string) bool {
 
 // constInt returns the integer value of a constant.
 func constInt(v ssa.Value) (int64, bool) {
+	v = seeThrough(v)
 	c, ok := v.(*ssa.Const)
 	if !ok || c.Value == nil {
 		return 0, false
@@ -397,6 +399,24 @@ func (p *Prog) fnsCalling(names ...string) []*ssa.Function {
 // it, so that two loads of the same variable are recognised as one register.
 func (p *Prog) canon(v ssa.Value) ssa.Value {
 	for i := 0; i < 8; i++ {
+		// a parameter of a helper with a single call site is the argument passed there
+		if prm, ok := v.(*ssa.Parameter); ok {
+			fn := prm.Parent()
+			if p.isPlainHelper(fn) && len(p.callers[fn]) == 1 {
+				k := -1
+				for j, q := range fn.Params {
+					if q == prm {
+						k = j
+					}
+				}
+				args := p.callers[fn][0].Common().Args
+				if k >= 0 && k < len(args) {
+					v = args[k]
+					continue
+				}
+			}
+			return v
+		}
 		u, ok := v.(*ssa.UnOp)
 		if !ok || u.Op != token.MUL {
 			return v
@@ -410,6 +430,14 @@ func (p *Prog) canon(v ssa.Value) ssa.Value {
 			return v
 		}
 		v = st[0]
+	}
+	return v
+}
+
+// seeThrough replaces the parameter of a single-site plain helper by the argument passed.
+func seeThrough(v ssa.Value) ssa.Value {
+	if _, ok := v.(*ssa.Parameter); ok && theProg != nil {
+		return theProg.canon(v)
 	}
 	return v
 }
